@@ -280,7 +280,8 @@ def check_vector(v):
     want_slots = v["slots"]
     n_valid = sum(1 for r in rows if r[0] in genome)
     key = json.dumps([genome, groups, v["consumer"], v["mech"], bool(v.get("derived"))])
-    if (not compatible) or "empty" in want_slots or ignored in groups:
+    ignored2 = v.get("ignored2", "")
+    if (not compatible) or "empty" in want_slots or ignored in groups or (ignored2 and ignored2 in groups):
         nt.append(key)
 
     def judge(pipe, cuts, o):
@@ -312,6 +313,8 @@ def check_vector(v):
         sizes = {name: size for name in genome}
         if ignored:
             sizes[ignored] = size
+            if ignored2:
+                sizes[ignored2] = size
             g = bnp.Genome.from_dict(sizes, filter_function=ignore_underscores)
         else:
             g = bnp.Genome.from_dict(sizes)
@@ -394,22 +397,26 @@ def run(ctx):
     quick = ctx.tier == "quick"
     invs = ["NoSilentDrop", "NoSpuriousError", "PrefixRight", "TypeOK", "ReversedIsIncompatible", "DerivedKeepsIgnored", "Emit"]
     vectors = []
-    plan = [("G1", "i_g"), ("G2", "i_g"), ("G3", "i_g"), ("G3u", ""), ("G3p", ""), ("G3r", "")] + ([] if quick else [("G4", "i_g")])
-    for gname, ign in plan:
+    plan = [("G1", "i_g", ""), ("G2", "i_g", ""), ("G3", "i_g", ""), ("G3u", "", ""), ("G3p", "", ""), ("G3r", "", ""),
+            ("G2", "i_g", "j_g")] + ([] if quick else [("G4", "i_g", ""), ("G3", "i_g", "j_g")])        # two ignored names: they can follow each other in the data
+    for gname, ign, ign2 in plan:
         for mech in ("iter_chromosomes", "synched_stream"):
             if mech == "synched_stream" and gname in ("G3u",):
                 continue
-            res = ctx.tlc("MC_C12", tag="MC_C12_%s_%s" % (gname, mech), spec="Spec",
-                          constants={"Genome": "<- " + gname, "Unknown": "x", "Ignored": ign, "AsBuilt": False, "Mechanism": mech},
+            if ign2 and mech == "synched_stream":
+                continue
+            res = ctx.tlc("MC_C12", tag="MC_C12_%s_%s%s" % (gname, mech, "_two_ignored" if ign2 else ""), spec="Spec",
+                          constants={"Genome": "<- " + gname, "Unknown": "x", "Ignored": ign, "Ignored2": ign2, "AsBuilt": False, "Mechanism": mech},
                           invariants=invs, properties=["DeriveFrame"], coverage=True)
             ctx.require_actions(res, "MC_C12", ["Prime", "Step", "Finish", "Derive"] if mech == "iter_chromosomes" else ["SStep"])
             for v in res.vectors:
                 v["ignored"] = ign if mech == "iter_chromosomes" else ""
+                v["ignored2"] = ign2 if mech == "iter_chromosomes" else ""
                 v["underscore_included"] = gname == "G3u"
             vectors += res.vectors
     # regression witness: the as-built generator (check after the yield) must be refuted by TLC
     r = core.run_tlc("MC_C12", ctx.work, tag="MC_C12_asbuilt", spec="Spec", expect_ok=False,
-                     constants={"Genome": "<- G3", "Unknown": "x", "Ignored": "i_g", "AsBuilt": True, "Mechanism": "iter_chromosomes"},
+                     constants={"Genome": "<- G3", "Unknown": "x", "Ignored": "i_g", "Ignored2": "", "AsBuilt": True, "Mechanism": "iter_chromosomes"},
                      invariants=["NoSilentDrop"])
     if not any("NoSilentDrop is violated" in e for e in r.errors):
         raise core.MachineryFailure("as-built look-ahead (check after the yield) no longer refuted by TLC")
